@@ -12,6 +12,7 @@ import json
 import os
 import sys
 
+import introspect as I
 import sched
 
 REPO = os.environ.get("VINEGAR_REPO", "/repo")
@@ -50,11 +51,14 @@ def _run_once(case, preempt):
     m, socketserver = _modules()
     n = len(case["threads"])
     shim = sched.ThreadingShim(Thread=sched.CoopThread, Lock=sched.CoopLock, Event=sched.CoopEvent)
-    saved = (m.threading, socketserver.threading, socketserver._ServerSelector, m._ThreadingHTTPServer)
+    inner_name, inner_cls = I.find_subclass(m, socketserver.BaseServer, default=(None, None))
+    if inner_cls is None:
+        return {"harness_exception": "no subclass of socketserver.BaseServer is defined in vinegar.http.server"}
+    saved = (m.threading, socketserver.threading, socketserver._ServerSelector, inner_cls)
     servers = []
     events = []
 
-    class Recorded(saved[3]):
+    class Recorded(inner_cls):
         def __init__(self, *a, **kw):
             super().__init__(*a, **kw)
             servers.append(self)
@@ -62,7 +66,7 @@ def _run_once(case, preempt):
     m.threading = shim
     socketserver.threading = shim
     socketserver._ServerSelector = StubSelector
-    m._ThreadingHTTPServer = Recorded
+    setattr(m, inner_name, Recorded)
     try:
         srv = m.HttpServer([], "::1", 0)
 
@@ -72,12 +76,15 @@ def _run_once(case, preempt):
             except Exception:  # noqa
                 return False
 
+        the_lock = I.find_instance(srv, sched.CoopLock)
+
         def snapshot():
             mains = s.workers[n:]
-            inner = srv._server
-            return {"running": bool(srv._running), "server_obj": inner is not None,
+            inner = I.find_instance(srv, socketserver.BaseServer)
+            running = I.find_named(srv, "running", kind=bool)
+            return {"running": None if running is I.MISSING else bool(running), "server_obj": inner is not None,
                     "listening": inner is not None and is_open(inner),
-                    "thread_ref": srv._main_thread is not None,
+                    "thread_ref": I.find_instance(srv, sched.CoopThread) is not None,
                     "thread_alive": any(w.state != "done" for w in mains),
                     "sockets_open": sum(1 for x in servers if is_open(x)),
                     "threads_alive": sum(1 for w in mains if w.state != "done")}
@@ -102,7 +109,7 @@ def _run_once(case, preempt):
         done_ops = [0] * n
 
         def on_release(idx, lock):
-            if lock is not srv._running_lock or idx is None or idx >= n:
+            if lock is not the_lock or idx is None or idx >= n:
                 return
             op = case["threads"][idx][done_ops[idx]] if done_ops[idx] < len(case["threads"][idx]) else "?"
             done_ops[idx] += 1
@@ -112,7 +119,8 @@ def _run_once(case, preempt):
         s.on_finish = snapshot
         s.run(real_timeout=float(case.get("real_timeout", 30)))
     finally:
-        m.threading, socketserver.threading, socketserver._ServerSelector, m._ThreadingHTTPServer = saved
+        m.threading, socketserver.threading, socketserver._ServerSelector = saved[:3]
+        setattr(m, inner_name, saved[3])
         for x in servers:
             try:
                 x.socket.close()
